@@ -27,6 +27,15 @@ theorem C04_recv_deposit_backed (s : State) (p : RecvPacket) (fx : List Effect) 
     ∃ b, lookup s.bridges d.bridge = some b ∧ b.asset = d.asset ∧ b.rollup = d.rollup ∧
       b.disabled = false ∧ d.amount = p.amount := recv_deposit_backed s p fx d hp h
 
+/-- A refund (timeout or error acknowledgement) publishes a deposit only for a withdrawal that
+    came from a rollup and only to a bridge account, in that bridge's asset and rollup, with the
+    equal credit in the same (all-or-nothing) effect list. -/
+theorem C04_refund_deposit_backed (s : State) (p : RefundPacket) (fx : List Effect) (d : Deposit)
+    (hp : refundPlan s p = some fx) (h : Effect.deposit d ∈ fx) :
+    Effect.credit d.bridge d.asset d.amount ∈ fx ∧ p.memo = .fromRollup ∧
+    ∃ b, lookup s.bridges d.bridge = some b ∧ b.asset = d.asset ∧ b.rollup = d.rollup ∧
+      d.amount = p.amount := refund_deposit_backed s p fx d hp h
+
 /-- No Deposit is published on behalf of a transaction or packet that did not take effect. -/
 theorem C04_no_orphan_deposit (s : State) :
     (∀ tx e, execTx s tx = .error e → (stepTx s tx).deposits = s.deposits) ∧
